@@ -144,6 +144,7 @@ namespace vh {
     };
 
     // focus symbol support
+    std::vector<std::string>& focus_patterns();    // union of all patterns, filled by static initialisers
     void focus_preload(std::vector<std::string> const& patterns);
     // registers the ranges of all preloaded symbols whose name contains one of `pats`; picks a random
     // subset of `k` patterns when k > 0. Returns number of ranges.
